@@ -4,6 +4,7 @@ package db
 
 import (
 	"context"
+	"errors"
 	"fmt"
 	"sort"
 	"strings"
@@ -746,6 +747,220 @@ func (e *c08Env) doCase(rec *vRecorder, stream, kind string, maxp int, initial u
 	return res
 }
 
+
+// ---------- system level: real database, real caching feed, real continuous changes feeds ----------
+
+type c08SysDoc struct {
+	Seq   uint64   `json:"seq"`
+	Chans []uint64 `json:"channels"` // 1, 2: the user's channels; 3: a channel the user cannot read
+}
+type c08SysScenario struct {
+	Mode    string      `json:"feeds"` // "compound-since", "since-0", "both"
+	Early   []c08SysDoc `json:"written_first"`
+	Late    []c08SysDoc `json:"written_after_feeds_opened"`
+	LastSeq uint64      `json:"last_early_sequence"`
+	LowSeq  uint64      `json:"feed_since_low"`
+}
+
+type c08SysFeed struct {
+	name string
+	ch   <-chan *ChangeEntry
+	got  map[uint64]int
+}
+
+// One scenario: documents 1..n are written directly with their sequence numbers except a few that are withheld; the
+// change cache gives up on the withheld ones (skipped).  Continuous feeds are then opened for a user -- one with the
+// compound since a client holds at that point {LowSeq: oldest skipped - 1, Seq: n}, so that its channel caches are
+// created lazily with validFrom n+1, above the skipped sequences -- and the withheld documents are written.  Every
+// open feed must deliver every late document of the user's channels.
+func c08SystemScenario(t *testing.T, rec *vRecorder, rnd *vRand, k int) bool {
+	opts := shortWaitCache()
+	opts.BroadcastChangesInterval = 5 * time.Millisecond
+	opts.SkippedSequenceBroadcastInterval = 5 * time.Millisecond
+	db, ctx := setupTestDBWithCacheOptions(t, opts)
+	defer db.Close(ctx)
+	authenticator := db.Authenticator(ctx)
+	user, err := authenticator.NewUser("naomi", "letmein", channels.BaseSetOf(t, c08ChanName(1), c08ChanName(2)))
+	if err != nil || authenticator.Save(user) != nil {
+		t.Fatalf("cannot create the user: %v", err)
+	}
+	collection := GetSingleDatabaseCollection(t, db.DatabaseContext)
+	names := func(ids []uint64) []string {
+		r := make([]string, len(ids))
+		for i, id := range ids {
+			r[i] = c08ChanName(id)
+		}
+		return r
+	}
+	sc := c08SysScenario{Mode: []string{"compound-since", "since-0", "both"}[k%3]}
+	n := uint64(5 + rnd.Intn(4))
+	sc.LastSeq = n
+	withheld := map[uint64]bool{uint64(2 + rnd.Intn(int(n)-2)): true}
+	if rnd.Chance(40) {
+		withheld[uint64(2+rnd.Intn(int(n)-2))] = true
+	}
+	visibleLate := false
+	for s := uint64(1); s <= n; s++ {
+		var ch []uint64
+		for id := uint64(1); id <= 3; id++ {
+			if rnd.Chance(50) {
+				ch = append(ch, id)
+			}
+		}
+		if len(ch) == 0 {
+			ch = []uint64{uint64(1 + rnd.Intn(3))}
+		}
+		d := c08SysDoc{Seq: s, Chans: ch}
+		if withheld[s] {
+			if !visibleLate && !c08Has(ch, 1) && !c08Has(ch, 2) {
+				d.Chans = append(d.Chans, uint64(1+rnd.Intn(2)))
+			}
+			visibleLate = true
+			sc.Late = append(sc.Late, d)
+			if sc.LowSeq == 0 {
+				sc.LowSeq = s - 1
+			}
+		} else {
+			sc.Early = append(sc.Early, d)
+		}
+	}
+	for _, d := range sc.Early {
+		WriteDirect(t, collection, names(d.Chans), d.Seq)
+	}
+	db.WaitForSequence(t, n)
+	allSkipped := true
+	for _, d := range sc.Late {
+		if !db.changeCache.skippedSeqs.Contains(d.Seq) {
+			allSkipped = false
+		}
+	}
+	dbc, uctx := GetSingleDatabaseCollectionWithUser(ctx, t, db)
+	dbc.user, err = authenticator.GetUser("naomi")
+	if err != nil {
+		t.Fatalf("GetUser: %v", err)
+	}
+	changesCtx, cancel := context.WithCancelCause(base.TestCtx(t))
+	defer cancel(errors.New("c08 scenario done"))
+	open := func(name string, since SequenceID) *c08SysFeed {
+		options := ChangesOptions{Since: since, Continuous: true, Wait: true, ChangesCtx: changesCtx}
+		ch, err := dbc.MultiChangesFeed(uctx, base.SetOf("*"), options)
+		if err != nil {
+			t.Fatalf("MultiChangesFeed: %v", err)
+		}
+		return &c08SysFeed{name: name, ch: ch, got: map[uint64]int{}}
+	}
+	var feeds []*c08SysFeed
+	if sc.Mode != "since-0" {
+		feeds = append(feeds, open(fmt.Sprintf("since %d::%d", sc.LowSeq, n), SequenceID{LowSeq: sc.LowSeq, Seq: n}))
+	}
+	// wait until the feed has created the channel caches and registered on their late-sequence logs
+	registered := func() bool {
+		impl, ok := db.changeCache.getChannelCache().(*channelCacheImpl)
+		if !ok {
+			return false
+		}
+		for id := uint64(1); id <= 2; id++ {
+			scc, found := impl.getActiveChannelCache(ctx, channels.NewID(c08ChanName(id), collection.GetCollectionID()))
+			if !found {
+				return false
+			}
+			scc.lateLogLock.RLock()
+			l := scc._mostRecentLateLog()
+			cnt := uint64(0)
+			if l != nil {
+				cnt = l.getListenerCount()
+			}
+			scc.lateLogLock.RUnlock()
+			if cnt < uint64(len(feeds)) {
+				return false
+			}
+		}
+		return true
+	}
+	waitRegistered := func() {
+		for dl := time.Now().Add(5 * time.Second); time.Now().Before(dl) && !registered(); {
+			time.Sleep(2 * time.Millisecond)
+		}
+	}
+	waitRegistered()
+	if sc.Mode != "compound-since" {
+		feeds = append(feeds, open("since 0", SequenceID{}))
+		waitRegistered()
+	}
+	validAbove := false
+	if impl, ok := db.changeCache.getChannelCache().(*channelCacheImpl); ok {
+		for id := uint64(1); id <= 2; id++ {
+			if scc, found := impl.getActiveChannelCache(ctx, channels.NewID(c08ChanName(id), collection.GetCollectionID())); found {
+				scc.lock.RLock()
+				for _, d := range sc.Late {
+					if c08Has(d.Chans, id) && d.Seq < scc.validFrom {
+						validAbove = true
+					}
+				}
+				scc.lock.RUnlock()
+			}
+		}
+	}
+	for _, d := range sc.Late {
+		WriteDirect(t, collection, names(d.Chans), d.Seq)
+	}
+	marker := n + 1
+	WriteDirect(t, collection, []string{c08ChanName(1)}, marker)
+	ok := true
+	for _, f := range feeds {
+		want := map[uint64]bool{marker: true}
+		for _, d := range sc.Late {
+			if c08Has(d.Chans, 1) || c08Has(d.Chans, 2) {
+				want[d.Seq] = true
+			}
+		}
+		missing := func() []uint64 {
+			var m []uint64
+			for s := range want {
+				if f.got[s] == 0 {
+					m = append(m, s)
+				}
+			}
+			sort.Slice(m, func(i, j int) bool { return m[i] < m[j] })
+			return m
+		}
+		deadline := time.After(6 * time.Second)
+	read:
+		for len(missing()) > 0 {
+			select {
+			case e, more := <-f.ch:
+				if !more {
+					break read
+				}
+				if e != nil {
+					f.got[e.Seq.Seq]++
+				}
+			case <-deadline:
+				break read
+			}
+		}
+		for _, s := range missing() {
+			ok = false
+			if s == marker {
+				rec.Fail("seqbuf_late_reaches_open_feeds", "system-feed-stalled", map[string]any{"stream": "system", "scenario": sc, "feed": f.name},
+					fmt.Sprintf("feed %q did not deliver the marker document %d", f.name, marker))
+			} else {
+				rec.Fail("seqbuf_late_reaches_open_feeds", "late-arrival-not-delivered-to-open-feed", map[string]any{"stream": "system", "scenario": sc, "feed": f.name},
+					fmt.Sprintf("open continuous feed %q never received the late arrival %d (skipped before the feed was opened: %v; channel cache validFrom above it: %v)", f.name, s, allSkipped, validAbove))
+			}
+		}
+		for _, d := range sc.Late {
+			if !c08Has(d.Chans, 1) && !c08Has(d.Chans, 2) && f.got[d.Seq] > 0 {
+				ok = false
+				rec.Fail("seqbuf_late_reaches_open_feeds", "late-arrival-outside-channels", map[string]any{"stream": "system", "scenario": sc, "feed": f.name},
+					fmt.Sprintf("feed %q delivered late arrival %d of a channel the user cannot read", f.name, d.Seq))
+			}
+		}
+	}
+	rec.Count("system", "system:"+sc.Mode, fmt.Sprintf("%+v", sc), allSkipped && validAbove)
+	return ok
+}
+
 func c08Permutations(n int, f func([]int)) {
 	p := make([]int, n)
 	for i := range p {
@@ -1168,5 +1383,14 @@ func TestVerifC08(t *testing.T) {
 		}
 		in.close()
 		rec.Count("concurrent", "concurrent", key, len(o.Skip) > 0 || len(o.Pend) > 0)
+	}
+
+	// ---- (f) system level: real database + caching feed + continuous changes feeds (monitors only) ----
+	nSys := vBudget(9, 60)
+	sysFailed := 0
+	for k := 0; k < nSys && sysFailed < 3; k++ {
+		if !c08SystemScenario(t, rec, rnd, k) {
+			sysFailed++
+		}
 	}
 }
